@@ -474,6 +474,9 @@ pub trait HasC { const V: u8; const W: Cc; const S: &'static str; }
 impl HasC for K { const V: u8 = 78; const W: Cc = Cc(11); const S: &'static str = "qself"; }
 pub fn mk8() -> u8 { 13 }
 pub fn mks() -> S8 { S8(1) }
+pub static U8_7: u8 = 7;
+/// `&&u8`: reaches a `&u8` field by deref coercion only (no `Into`)
+pub const C_RR: &&u8 = &&U8_7;
 '''
 
 # (field type, attribute expression or None, reference value expression)
@@ -485,6 +488,8 @@ C11_FIELD_CASES = [
     ("u8", "<K as HasC>::V", "<K as HasC>::V"), ("S8", "<K as HasC>::W", "<S8 as From<_>>::from(<K as HasC>::W)"), ("S8", "<K as HasC>::S", "<S8 as From<_>>::from(<K as HasC>::S)"), ("S8", "<K>::W", "<S8 as From<_>>::from(K::W)"),
     ("S8", "crate::support::C_CC", "<S8 as From<_>>::from(C_CC)"), ("S8", "self::super::support::K::W", "<S8 as From<_>>::from(K::W)"),
     ("u8", "7, bound()", "7u8"), ("S8", '"xy", bound()', '<S8 as From<_>>::from("xy")'), ("u8", "_, bound()", "0u8"), ("u8", "C_U8 + 1", "42u8"), ("i16", "(-3)", "-3i16"),
+    # wrapped paths / literals are not "a path" or "a string literal" any more: no Into (the value only *coerces* to the field type)
+    ("&'static u8", "(C_RR)", "&U8_7"), ("&'static u8", "{ C_RR }", "&U8_7"), ("u8", "(C_U8)", "C_U8"), ("u8", "(5)", "5u8"), ("&'static u8", "C_RR as &u8", "&U8_7"),
 ]
 
 
@@ -973,8 +978,16 @@ def c20_prog(name, rng, names=None):
             item = "pub struct %s%s%s%s" % (X, g, where, body(v[1], v[2], "pub "))
         else:
             item = "pub struct %s%s%s%s;" % (X, g, body(v[1], v[2], "pub "), where)
-    text = head + item + "\n\npub fn replay(_h: &str, _b: &[u8]) -> (bool, String) { (true, String::new()) }\n"
-    return Prog(name, text, [], {"describe": "derive_ex(%s) [%s] %s" % (lst, entry, _re.sub(r"\s+", " ", item))})
+    via_macro = (not names) and rng.random() < 0.2
+    if via_macro:
+        # the item comes out of a macro_rules! expansion that adds the derive_ex attribute (as the standard derives allow): generated
+        # identifiers must resolve like the rest of the generated code whatever syntax context the user's tokens carry
+        text = "macro_rules! mk_item { ($($body:tt)*) => { %s $($body)* } }\nmk_item! { %s }\n\npub fn replay(_h: &str, _b: &[u8]) -> (bool, String) { (true, String::new()) }\n" % (head.replace("\n", " "), item)
+    else:
+        text = head + item + "\n\npub fn replay(_h: &str, _b: &[u8]) -> (bool, String) { (true, String::new()) }\n"
+    p = Prog(name, text, [], {"describe": "derive_ex(%s) [%s%s] %s" % (lst, entry, " via macro_rules" if via_macro else "", _re.sub(r"\s+", " ", item))})
+    p.meta["plain"] = head + item
+    return p
 
 
 
